@@ -77,14 +77,11 @@ Definition uncovered (sw : tswitch) : list string := filter (fun t => negb (str_
       *ssa.MultiConvert  only occurs in bodies of uninstantiated generic functions; no such function is reachable (hence
                          summarised or given to the pointer analysis): GEN reachable_uninstantiated = 0 and
                          reachable_multiconvert = 0 on a corpus that does contain MultiConvert instructions;
-      *dataflow.IfNode   has no outgoing edge and is not a backtrace entry point, so the backward traversal never visits it;
-      *ssa.Const         `go` statement whose function value is a constant: REACHABLE, corpus/c07/gonil panics the escape
-                         analysis (known finding); kept as an exception so that any OTHER uncovered type breaks the theorem. *)
+      *dataflow.IfNode   has no outgoing edge and is not a backtrace entry point, so the backward traversal never visits it; *)
 Definition exceptions : list (string * string * string) :=
   [ ("InstrSwitch", "ssa.Instruction", "*ssa.MultiConvert");
     ("*analysis.genInstr", "ssa.Instruction", "*ssa.MultiConvert");
-    ("*Visitor.visit", "dataflow.GraphNode", "*dataflow.IfNode");
-    ("*functionAnalysisState.transferFunction", "ssa.Value", "*ssa.Const") ].
+    ("*Visitor.visit", "dataflow.GraphNode", "*dataflow.IfNode") ].
 
 Definition exc_mem (f i t : string) : bool :=
   existsb (fun e => match e with (f', i', t') => String.eqb f f' && String.eqb i i' && String.eqb t t' end) exceptions.
